@@ -117,7 +117,8 @@ class OWorld:
         targets = []
         for j in range(spec["nt"]):
             targets.append(O.Target(j, spec["values"][j], tol=spec["tols"][j], weight=spec["tweights"][j],
-                                    action=self.action, tag=spec["ttags"][j]))
+                                    action=self.action, tag=spec["ttags"][j],
+                                    optimize_log=bool(spec.get("optlog", [False] * spec["nt"])[j])))
         o = spec["opts"]
         self.opt = xd.Optimize(vary=vary, targets=targets, restore_if_fail=o["restore_if_fail"],
                                assert_within_tol=o["assert_within_tol"], n_steps_max=o["n_steps_max"],
